@@ -152,6 +152,35 @@ def rule_flush_before_reuse(ctx):
         ok = bool(ready) and cfg.must_pass(c["bb"], ready) and (not okres or cfg.must_pass(c["bb"], okres))
         what = "frame.reset()" if c in resets else "write_message"
         ctx.ob(R, "%s after completed flush" % what, ok, "%s is dominated by poll_flush_frame returning Ready(Ok)" % what if ok else "%s can overwrite a frame that was not completely written to the transport" % what, w.loc(c["t"].get("ln")))
+    # buffered plaintext is never left behind: with a non-empty payload poll_flush_payload reports Ready(Ok) only after the
+    # payload was encrypted into the frame buffer (write_message succeeded); it returns early only for an empty payload
+    def m_plen(a, b):
+        def pl(t):
+            return t[0] == "call" and t[1] == BUF + "::len" and any(x[0] == "field" and x[2] == "payload" for x in subterms(t))
+        if pl(a) and b == ("const", 0):
+            return 1
+        if pl(b) and a == ("const", 0):
+            return -1
+        return 0
+    Wp = Walker(ctx, w, [Atom("cmp(payload.len,0)", "cmp", m_plen, ["=", ">"])])
+    e_wm = Q.success_edges(ctx, w, lambda b: b[0] == "call" and b[1].endswith("TransportState::write_message"))
+    rdy = []
+    for bi, b in enumerate(w.blocks):
+        for st in b["s"]:
+            if st["k"] == "assign" and not st["p"].get("pr") and st["p"]["l"] in Q.ret_locals(w) and st["r"]["k"] == "agg":
+                v = T.rvalue(st["r"])
+                if v[0] == "agg" and v[2] == "Ready" and v[3] and v[3][0][1][0] == "agg" and v[3][0][1][2] == "Ok":
+                    rdy.append(bi)
+    if common.atom_is_tested(ctx, w, m_plen) and e_wm and rdy:
+        r_non = Wp.reachable({"cmp(payload.len,0)": ">"}, 0, frozenset(), frozenset(e_wm))
+        r_emp = Wp.reachable({"cmp(payload.len,0)": "="}, 0, frozenset([c["bb"] for c in wm]))
+        okp = not (set(rdy) & r_non)
+        ctx.ob(R, "non-empty payload is encrypted before Ready(Ok)", okp, "with payload.len() > 0 Ready(Ok) is reachable only through the success of write_message" if okp else
+               "poll_flush_payload can report Ready(Ok) with a non-empty payload that was not encrypted into a frame: bytes the writer flushed never reach the wire", w.loc())
+    elif not (e_wm and rdy):
+        ctx.ob(R, "non-empty payload is encrypted before Ready(Ok)", False, "write_message success or Ready(Ok) return not found in poll_flush_payload", w.loc())
+    else:
+        ctx.note("C13.3 empty-payload test of poll_flush_payload not recognised - not decided")
     ff = fn1(ctx, "::poll_flush_frame")
     Tf = ctx.T(ff)
     # loop until frame.len() == 0; zero-byte write is an error
